@@ -252,6 +252,17 @@ class Env:
     def cut(self, reason):
         raise Cut(reason)
 
+    def proof_device(self, label, cond):
+        """a condition the *argument* needs (a representation invariant of an inductive step), not one the property states: where it
+        can fail, the argument does not apply to this path and the path is left outside the claim (recorded), never reported as a violation"""
+        if not isinstance(cond, SymBool):
+            cond = builtins.bool(cond)
+        if self.sym:
+            if cond is not True and (cond is False or self.ctx.must(cond) is not None):
+                raise Cut("proof device does not hold: " + label)
+        elif not cond:
+            raise Cut("proof device does not hold: " + label)
+
     def _region_terms(self, label):
         out = []
         for rid, pred in self.regions.get(label, ()):
